@@ -295,8 +295,26 @@ func (a *Ast) print(sb *strings.Builder, o Opts, r *Rng) {
 	}
 }
 
+// regexp2 (like .NET) rejects an inline-option group that is a direct child of an expression
+// conditional: such groups are printed inside (?: ).
+func shieldOptGroups(a *Ast) *Ast {
+	switch a.Kind {
+	case AOptGroup:
+		return &Ast{Kind: ANonCap, Kids: []*Ast{a}}
+	case AConcat, ARep:
+		c := *a
+		c.Kids = nil
+		for _, k := range a.Kids {
+			c.Kids = append(c.Kids, shieldOptGroups(k))
+		}
+		return &c
+	}
+	return a
+}
+
 // a branch of a conditional must not contain a top-level '|'
 func (a *Ast) printAtomAlt(sb *strings.Builder, o Opts, r *Rng) {
+	a = shieldOptGroups(a)
 	if a.Kind == AAlt {
 		sb.WriteString("(?:")
 		a.print(sb, o, r)
